@@ -62,6 +62,9 @@ MC = {
         C("three-col", 3, 3, RED2, 1, False, 1, 1),
         C("three-fixed-upd", 3, 3, FIXED, 0, True, 2, 0, types=("INT", "BIGINT", "BOOLEAN"), wrong=False),
         C("blank-twins", 1, 1, TWINS, 0, True, 3, 1, types=("VARCHAR",), wrong=False),
+        # two rows, then an UPDATE of some columns: a row that holds NULL in a column the statement does not assign keeps its NULL
+        # (three mutations: INSERT, INSERT, UPDATE - the other configurations stop at two)
+        C("two-rows-upd", 2, 2, FIXED, 0, True, 3, 0, wrong=False),
         # statements that name a column the table does not have, between valid ones
         dict(C("unknown-column", 1, 2, dict(IntCls=["1"], BigCls=["0"], StrCls=["l1"]), 0, True, 2, 1, wrong=False), WithUnknown=True),
     ],
@@ -76,6 +79,7 @@ MC = {
         C("three-fixed-upd", 3, 3, FIXED, 0, True, 2, 2, types=("INT", "BIGINT", "BOOLEAN"), wrong=False),
         C("four-fixed-upd", 4, 4, dict(IntCls=["1"], BigCls=["2p32"], StrCls=["l1"]), 0, True, 2, 0, types=("INT", "BIGINT"), wrong=False),
         C("blank-twins", 1, 2, TWINS, 0, True, 3, 2, types=("VARCHAR",), wrong=False),
+        C("two-rows-upd", 2, 3, FIXED, 0, True, 3, 1, wrong=False),
         dict(C("unknown-column", 1, 2, dict(IntCls=["1"], BigCls=["0"], StrCls=["l1"]), 0, True, 2, 2, wrong=False), WithUnknown=True),
     ],
 }
@@ -99,7 +103,7 @@ def mc_cfg(c):
         "  MinCols = %d" % c["MinCols"], "  MaxCols = %d" % c["MaxCols"],
         "  Types = %s" % tla_set(c["Types"]), "  IntCls = %s" % tla_set(c["IntCls"]), "  BigCls = %s" % tla_set(c["BigCls"]),
         "  StrCls = %s" % tla_set(c["StrCls"]), "  WithNull = %s" % tla_bool(c["WithNull"]), "  WithWrong = %s" % tla_bool(c["WithWrong"]),
-        "  MaxBad = %d" % c["MaxBad"], "  WithUpd = %s" % tla_bool(c["WithUpd"]), "  WithUnknown = %s" % tla_bool(c.get("WithUnknown", False)), "  MaxMut = %d" % c["MaxMut"],
+        "  MaxBad = %d" % c["MaxBad"], "  WithUpd = %s" % tla_bool(c["WithUpd"]), "  WithUnknown = %s" % tla_bool(c.get("WithUnknown", False)), "  WithGuard = %s" % tla_bool(c.get("WithGuard", False)), "  MaxMut = %d" % c["MaxMut"],
         "  MaxLife = %d" % c["MaxLife"], "  LifeFrom = %d" % c.get("LifeFrom", 0), '  EmitSel = "%s"' % c.get("EmitSel", "all"),
         "  MixedUpd = %s" % tla_bool(c.get("MixedUpd", False)), "  EmitOn = %s" % tla_bool(c.get("EmitOn", True)),
         "INIT MCInit", "NEXT MCNext", "VIEW View", "ACTION_CONSTRAINT Emit",
